@@ -12,9 +12,23 @@ def replay(cls, path):
     ensure_built()
     chk = cls("quick", 0)
     s = script_from_json(j["script"]); s.setup_len = j["script"].get("setup_len", 0)
-    im = run_impl([s]); mo = run_model([s])
+    # the check's own runners (several checks drive their own harness program / runner mode)
+    try:
+        impl, model, div, rej = chk.evaluate([s])
+    except Exception as e:
+        import framework
+        impl, model = framework.run_impl([s]), framework.run_model([s])
+        div, rej = [], []
+        print("note: the check's evaluate() could not be used for a single script (%s); generic runners used" % e)
     print("script:"); [print("  ", e) for e in s.events]
-    print("implementation:", im.get(s.id)); print("model:         ", mo.get(s.id))
-    rep = chk.oracle_report(s)
-    print("reference verdict:", json.dumps(rep, indent=1) if rep else "accepted")
-    return 1 if rep else 0
+    print("implementation:", impl.get(s.id)); print("model:         ", model.get(s.id))
+    if div:
+        print("model/implementation difference:", json.dumps(div[0][1], default=str))
+    rep = {"verdict": rej[0][1]} if rej else None
+    if rep is None:
+        try:
+            rep = chk.oracle_report(s)
+        except Exception:
+            rep = None
+    print("reference verdict:", json.dumps(rep, indent=1, default=str) if rep else "accepted")
+    return 1 if (rep or div) else 0
